@@ -122,6 +122,24 @@ def active_task_probe(rt, fr, k):
         rt.violation("active-task-wrong", {"task": fr.path, "step": k, "active": repr(t)[:200]})
 
 
+def stale_active_probe(rt, where):
+    """Code the scheduler itself runs between task steps (value providers, context callbacks, flush bodies)
+    must not see a task as 'active' whose body is not executing: get_active_task() is None there, or a task whose
+    step is on the Python stack right now (it made the synchronous call we are in)."""
+    if not rt.track_running:
+        return
+    t = asynq_scheduler.get_active_task()
+    if t is None:
+        return
+    args = getattr(t, "args", None)
+    fr = args[-1] if args else None
+    if not isinstance(fr, lang.Frame):
+        return
+    rt.n_stale_active_checks = getattr(rt, "n_stale_active_checks", 0) + 1
+    if not any(f is fr for f in rt.running):
+        rt.violation("active-task-is-a-task-that-is-not-running", {"seen_from": where, "active": repr(t)[:160], "task": fr.path, "finished": fr.done})
+
+
 # ---------------------------------------------------------------------------
 # helpers over the frame graph
 
